@@ -397,7 +397,7 @@ def c06_code_to_spec(tier, seed, cov, binary=None, plan=None):
         if l.startswith('{"ev":"ShuffleIdx"'):
             e = json.loads(l)
             tcls["per_index_huge_list"] = tcls.get("per_index_huge_list", 0) + 1
-            if any(w[0][1] >= 65536 for w in e["hw"]):
+            if any(w[0] >= 65536 for ws in e["hw"] for w in ws):
                 tcls["per_index_window_ge_2_16"] = tcls.get("per_index_window_ge_2_16", 0) + 1
     viol = []
     if rejected:
